@@ -448,18 +448,18 @@ def _renumber_drop_partition(sched, s, p, P):
     out = []
     for e in sched:
         e = list(e)
-        if len(e) == 3 and e[1] == s:
-            k, _, i = e
+        if len(e) == 4 and e[2] == s:
+            _, k, _, i = e
             if k == "a":
                 if i == p:
                     continue
                 if i > p:
-                    e[2] = i - 1
+                    e[3] = i - 1
             elif k == "m":
                 if i == min(p, P - 2):
                     continue
                 if i > p:
-                    e[2] = i - 1
+                    e[3] = i - 1
         out.append(e)
     return out
 
@@ -487,7 +487,7 @@ def candidates(record: dict) -> Iterable[dict]:
         for s in range(len(subs)):
             c = copy.deepcopy(record)
             del c["workload"]["subs"][s]
-            c["schedule"] = [[e[0], e[1] - (1 if e[1] > s else 0), *e[2:]] for e in map(list, sched) if not (len(e) >= 2 and e[1] == s)]
+            c["schedule"] = [[e[0], e[1], e[2] - (1 if e[2] > s else 0), *e[3:]] for e in map(list, sched) if not (len(e) >= 3 and e[2] == s)]
             c["faults"] = []
             yield c
     # drop a partition
